@@ -2,6 +2,7 @@
    checkSequenceNumber(); Inv kb vs c says "c frames outstanding, acknowledgement numbers vs-c+1..vs". *)
 From Coq Require Import ZArith List Bool.
 From L60870 Require Import Apci.KBuf Apci.KBufProofs.
+From L60870 Require Cs104.Client Cs104.ClientProofs.
 Import ListNotations.
 Local Open Scope Z_scope.
 
@@ -31,6 +32,18 @@ Theorem C04_bound : forall ops kb vs c, InvL kb vs c ->
 Proof. exact krun_inv. Qed.
 
 (* non-vacuity: a window straddling the 32767 -> 0 wrap *)
+(* client role, whole connection loop (Cs104/Client.v, executed against the real client on every run): along EVERY history of
+   loop iterations, received octets, application sends (also from inside callbacks), STARTDT/STOPDT, close, at any times, the
+   number of I-format APDUs sent and not yet acknowledged never exceeds the k the connection was made with; a send while the
+   window is full is refused without transmitting anything *)
+Theorem C04_client_window_bound : forall xs g now0 c0,
+  let c := fst (Client.cconnect g now0 c0 true) in
+  ClientProofs.lenkb (ClientProofs.crun g c xs) <= Z.max 0 (Client.cc_k g).
+Proof. exact ClientProofs.client_window_bound. Qed.
+Theorem C04_client_refused_while_full : forall now c a, Client.running c = true -> Client.ckfull c = true ->
+  Client.csend_asdu now c a = (c, false, []).
+Proof. exact ClientProofs.csend_asdu_refused. Qed.
+
 Example C04_example :
   let kb := push (push (push (kempty 4) 32767) 0) 1 in
   InvL kb 1 3 /\ check_seq kb 1 0 = Some (true, set_oldest kb 2) /\ check_seq kb 1 5 = Some (false, kb).
